@@ -106,12 +106,12 @@ PLAN["C15"] = {
     "feature": "c15",
     "exhaustive": False,
     "bounds": "sequential semantics: every history of <= 10 inserts + one lookup on 1 table x 1 bucket (forces the full-bucket "
-              "replacement path); every history of <= 2 inserts + lookup on 1x2 and of 1 insert + lookup on 2x1, 3x1 (quick), 2x2, 3x5 (thorough) (routing with adversarially aligned "
+              "replacement path); every history of <= 2 inserts + lookup on 1x2 and of 1 insert + lookup on 2x1, 3x1 (quick), 2x2 (thorough) (routing with adversarially aligned "
               "keys; longer routed histories exhaust memory: symbolic routing through heap-allocated tables); one insert + lookups from an arbitrary bucket satisfying the representation invariant (histories of any "
               "length on one bucket, by induction)",
     "outside": ["thread interleavings: Kani has no thread model; every operation of TranspositionTableAccess holds exactly one RwLock "
                 "for its whole duration, so concurrent behaviour is a linearisation of the sequential behaviour decided here (argument from reading)",
-                "tables with more than 3 x 5 buckets"],
+                "tables with more than 3 tables or 2 buckets per table (3 x 5 with a single insert exhausted 24 GB)"],
     "trusted": ["rustc / kani-compiler / CBMC", "Kani's sequential model of std::sync::RwLock"],
     "assumptions": ["entries carry moves built by Move::by_moving with symbolic colour/kind/squares; depth fields < 2^16"],
     "insts": [
@@ -122,7 +122,6 @@ PLAN["C15"] = {
         Inst("c15::routed_3x1_n1", crate="engine", sub="C15.a", unwind=10, timeout=3600, mem_gb=20, functions=_c15_fn, bounds="3 tables x 1 bucket (a table count that is not a power of two), <= 1 insert + lookup"),
         Inst("c15::routed_1x2_n2", crate="engine", sub="C15.a", unwind=10, timeout=3600, mem_gb=14, functions=_c15_fn, bounds="1 x 2, <= 2 inserts + lookup"),
         Inst("c15::routed_2x1_n1", crate="engine", sub="C15.a", unwind=10, timeout=3600, mem_gb=14, functions=_c15_fn, bounds="2 x 1, <= 1 insert + lookup"),
-        Inst("c15::routed_3x5_n1", crate="engine", sub="C15.a", tiers=("thorough",), unwind=10, timeout=3600, mem_gb=24, functions=_c15_fn, bounds="3 x 5, <= 1 insert + lookup"),
         Inst("c15::step_from_arbitrary_bucket", crate="engine", sub="C15.b", unwind=10, timeout=3600, mem_gb=12, functions=_c15_fn + ("verif_hooks::Table::from_slots/slot",),
              bounds="arbitrary bucket (8 symbolic slots under the representation invariant), one insert, symbolic lookups"),
         Inst("c15::reach_witness", crate="engine", sub="vacuity", unwind=10, timeout=600, expect="fail"),
